@@ -1,0 +1,52 @@
+//go:build verif
+
+package server
+
+// Contracts for the verifier in /verif (comment-only; see /verif/DESIGN.md §3).
+
+//@ guarded_by server.mutex: locations, cache, compress, compressMinLength, compressContentTypeFilter
+//@ immutable server: mutex
+//@ typeinv server(s) by NewServer: s.mutex != nil
+
+// the cache-status label stored in the request context
+//@ spec func statusOf(c *elton.Context) int := ctxInt(c.has[box("_status")], c.kv[box("_status")])
+//@ axiom [server-errors]: ErrInvalidResponse != nil && ErrCacheDispatcherNotFound != nil && ErrLocationNotFound != nil && ErrUpstreamNotFound != nil
+//@ spec func isPassMethod(m string) bool := m != "GET" && m != "HEAD"
+
+//@ func requestIsPass(req *http.Request) (pass bool)
+//@   requires [req] req != nil
+//@   nopanic
+//@   ensures [def] pass <==> isPassMethod(req.Method)
+
+//@ func NewServer(opt ServerOption) (s *server)
+//@   nopanic
+//@   ensures [fresh] fresh(s)
+
+//@ func (s *server) GetCache() (name string)
+//@   requires [recv] s != nil
+//@   requires [unlocked] !anyheld(s.mutex)
+//@   modifies s.locations, s.cache, s.compress, s.compressMinLength, s.compressContentTypeFilter
+//@   nopanic
+
+//@ func getKey(req *http.Request) (key []byte)
+//@   requires [req] req != nil && req.URL != nil
+//@   nopanic
+//@   strings
+//@   ensures [fresh] fresh(key)
+
+//@ func NewCache$1(c *elton.Context) (err error)
+//@   requires [ctx]     c != nil
+//@   requires [server]  s != nil && deref(s) != nil
+//@   requires [notok]   forall x *cache.httpCache :: $tok[x] == 0
+//@   requires [nolocks] nolocks()
+//@   requires [nodebt]  $owed == $sent_total
+//@   modifies heap, $nexts, $clock, $regs, $recv, $recv_total, $owed, $sent, $sent_total, $expbase, $tok
+//@   ensures          [token]     forall x *cache.httpCache :: $tok[x] == 0
+//@   ensures_on_panic [token]     forall x *cache.httpCache :: $tok[x] == 0
+//@   ensures          [nodebt]    $owed == $sent_total
+//@   ensures_on_panic [nodebt]    $owed == $sent_total
+//@   ensures          [pass-once] isPassMethod(old(c.Request.Method)) ==> $nexts == old($nexts) + 1 && statusOf(c) == cache.StatusPassed
+//@   ensures          [hit-local] statusOf(c) == cache.StatusHit ==> $nexts == old($nexts)
+//@   ensures          [miss-once] statusOf(c) != cache.StatusHit && err == nil ==> $nexts == old($nexts) + 1
+//@   ensures          [at-most-once] $nexts <= old($nexts) + 1
+//@   ensures          [locks]     nolocks()
